@@ -413,6 +413,11 @@ func gen(a hx.Args) {
 			genBatchMax(r, r.Intn(110))
 		}
 	}
+	// records with headers around the batch limit (genhdr.go): a fixed small-scope grid, then random packed / single cases
+	genHdrGrid(r, a.Tier == "thorough")
+	for i := 0; i < a.N(320, 7000); i++ {
+		genHdr(r)
+	}
 	// a few large cases (three/four byte compact prefixes)
 	for i := 0; i < a.N(2, 8); i++ {
 		genBoundary(r, true)
